@@ -8,6 +8,11 @@ theorem tenSec_pos : 0 < tenSec := by decide
 /-- File set written for a successful request. -/
 def fileSetOf (r : Req) : FileSet := ⟨r.tok, r.tok, r.anchors⟩
 
+/-- Renewal time of the certificate a fetch returned (0 for a failed fetch). -/
+def halfOf : Option Cert → Int
+  | some c => renewalTime c.nb c.na
+  | none => 0
+
 /-- What one `fetchIdentityCertificate` call does. -/
 structure FetchSpec (s s1 : RN) (r : Option Cert) : Prop where
   now : s1.now = s.now
@@ -21,7 +26,7 @@ structure FetchSpec (s s1 : RN) (r : Option Cert) : Prop where
   timers : s1.timers = s.timers
   nextTok : s1.nextTok = s.nextTok + 1
   script : s1.script = s.script.tail
-  log : s1.log = ⟨s.now, s.nextTok, r.isSome, s.anchors⟩ :: s.log
+  log : s1.log = ⟨s.now, s.nextTok, r.isSome, s.anchors, halfOf r⟩ :: s.log
   tok : ∀ c, r = some c → c.tok = s.nextTok
   pub : s1.pub = if s.dirOn && r.isSome then ⟨s.nextTok, s.nextTok, s.anchors⟩ :: s.pub else s.pub
   emptyFail : s.script = [] → r = none
@@ -29,13 +34,13 @@ structure FetchSpec (s s1 : RN) (r : Option Cert) : Prop where
 theorem fetch_spec (s : RN) : FetchSpec s (fetch s).1 (fetch s).2 := by
   unfold fetch
   cases hs : s.script with
-  | nil => constructor <;> simp [hs]
+  | nil => constructor <;> simp [hs, halfOf]
   | cons r rest =>
     cases r with
-    | fail => constructor <;> simp [hs]
-    | ok nb na => constructor <;> simp [hs]
+    | fail => constructor <;> simp [hs, halfOf]
+    | ok nb na => constructor <;> simp [hs, halfOf]
     | okAnchorsFail nb na =>
-      cases hd : s.dirOn <;> constructor <;> simp [hd, hs]
+      cases hd : s.dirOn <;> constructor <;> simp [hd, hs, halfOf]
 
 /-- Data invariant: what is served, which keys were used, what was published. -/
 structure DInv (s : RN) : Prop where
@@ -377,6 +382,12 @@ theorem runActs_reach {dirOn : Bool} {a0 : Nat} {script : List Reply} {t0 : Int}
       cases a with
       | adv d => exact .adv d (by simpa [Act.ok] using hok.1) hs
       | anchors a => exact .anch a hs
+      | toWake =>
+        simp only [act]
+        split
+        · exact hs
+        · rename_i hn
+          exact .adv _ (by omega) hs
     simp only [runActs, List.mem_cons] at ht
     rcases ht with ht | ht
     · rw [ht]; exact hstep
